@@ -1,6 +1,6 @@
 (* LeafTheorems.v — single comparisons as rules: what Process answers for
    `p op literal`, by literal kind (C03 C04 C08 C09 C10 C18). *)
-From Rules Require Import Spec Eval EvalProofs Refinement SemProps OpsProps ValuesProps Theorems.
+From Rules Require Import Spec Eval EvalProofs Refinement SemProps OpsProps ValuesProps FloatProofs Theorems.
 From Coq Require Import QArith.
 Open Scope Z_scope.
 
@@ -105,6 +105,16 @@ Proof.
   intros Hp Hd Hn Hop.
   rewrite (compare_alone p op _ _ OpFloat (RF64 d) (rel_holds op (f64_compare (f64_of_Z z) d)) None Hp Hd);
     [reflexivity|cbn; rewrite Hn; reflexivity|apply float_apply_int; assumption].
+Qed.
+
+(* Go int attribute with |z| <= 2^53 against a decimal literal: the order of the rationals *)
+Theorem c03_int_dec_exact p op t z m' e' :
+  p <> [] -> denote top p = Ok (GInt z) -> Z.abs z <= two53 -> parse_float t = PFVal (FFin m' e') -> is_rel op ->
+  P (QCompare p op (VDouble t)) = mkOut (rel_holds op (Some (Qcompare (inject_Z z) (Qval m' e')))) ErrNone None.
+Proof.
+  intros Hp Hd Hz Hn Hop. rewrite (c03_int_dec p op t z _ Hp Hd Hn Hop).
+  rewrite (f64_of_Z_compare z _ Hz). cbn [f64_compare].
+  rewrite dyadic_compare_is_Qcompare, (Qcompare_comp _ _ (Qval_int z) _ _ (Qeq_refl (Qval m' e'))). reflexivity.
 Qed.
 
 Theorem c03_nan p op v t r :
